@@ -333,6 +333,12 @@ class Escape:
                 self.sources.append(src)
                 for c in src.excs:
                     items.append((src.node, c, src))
+            # T8: attribute of a module imported under a run-time name (`m = import_module(f'pkg.{name}')`; `m.attr`):
+            #     AttributeError unless a dominating `hasattr(m, 'attr')` test / 3-argument getattr is used instead
+            for src in self._dynamic_module_attrs(f):
+                self.sources.append(src)
+                for c in src.excs:
+                    items.append((src.node, c, src))
             # T2: declared raises of the function itself (abstract / documented contract)
             if f.qn in self.declared:
                 src = Source(f, f.node, list(self.declared[f.qn]), 'declared contract', 'T2')
@@ -448,6 +454,45 @@ class Escape:
         if isinstance(p, ast.Compare) and any(isinstance(o, (ast.Lt, ast.Gt, ast.LtE, ast.GtE)) for o in p.ops):
             return 'ordering comparison'
         return None
+
+    def _dynamic_module_attrs(self, f: Func) -> List['Source']:
+        from .cfg import CFG
+        out: List[Source] = []
+        if isinstance(f.node, ast.Lambda):
+            return out
+        def dyn_import(v: ast.AST) -> bool:
+            if not (isinstance(v, ast.Call) and v.args):
+                return False
+            nm = v.func.attr if isinstance(v.func, ast.Attribute) else v.func.id if isinstance(v.func, ast.Name) else ''
+            return nm in ('import_module', '__import__') and not isinstance(v.args[0], ast.Constant)
+        stores: Dict[str, List[ast.AST]] = {}
+        for n in f.walk():
+            if isinstance(n, ast.Name) and isinstance(n.ctx, ast.Store):
+                stores.setdefault(n.id, []).append(n)
+        mods = {t.id for n in f.walk() if isinstance(n, ast.Assign) and dyn_import(n.value) for t in n.targets
+                if isinstance(t, ast.Name) and len(stores.get(t.id, [])) == 1}
+        if not mods:
+            return out
+        cfg = None
+        for a in f.walk():
+            if not (isinstance(a, ast.Attribute) and isinstance(a.ctx, ast.Load) and isinstance(a.value, ast.Name) and a.value.id in mods):
+                continue
+            if a.attr.startswith('__') and a.attr.endswith('__'):
+                continue                      # __name__, __file__, ... exist on every module
+            v = a.value.id
+            if cfg is None:
+                cfg = CFG(f)
+            try:
+                st = cfg.stmt_of(a)
+            except AttributeError:
+                continue
+            def is_hasattr(t: ast.AST) -> bool:
+                return (isinstance(t, ast.Call) and isinstance(t.func, ast.Name) and t.func.id == 'hasattr' and len(t.args) == 2 and
+                        isinstance(t.args[0], ast.Name) and t.args[0].id == v and isinstance(t.args[1], ast.Constant) and t.args[1].value == a.attr)
+            if any(pol and is_hasattr(t) for t, pol in cfg.dominating_tests(st)):
+                continue
+            out.append(Source(f, a, ['AttributeError'], f'`{v}.{a.attr}` on a module imported under a run-time name', 'T8'))
+        return out
 
     def _partial_list_ops(self, f: Func) -> List['Source']:
         from .cfg import CFG
@@ -758,10 +803,10 @@ class Escape:
         e = Escape(repo, _CG(repo), {}, {})
         got = {(s.func.name, s.kind) for s in e.sources}
         problems = []
-        for want in (('bad_arith', 'T4'), ('bad_attr', 'T4'), ('bad_format', 'T1'), ('bad_var', 'T4'), ('bad_unpack', 'T5'), ('bad_pop', 'T7'), ('bad_mapget', 'T4')):
+        for want in (('bad_arith', 'T4'), ('bad_attr', 'T4'), ('bad_format', 'T1'), ('bad_var', 'T4'), ('bad_unpack', 'T5'), ('bad_pop', 'T7'), ('bad_mapget', 'T4'), ('bad_modattr', 'T8')):
             if want not in got:
                 problems.append(f'fixture source {want} not detected')
-        for ok_name, k in (('good_arith', 'T4'), ('good_var', 'T4'), ('good_unpack', 'T5'), ('good_pop', 'T7'), ('good_mapget', 'T4')):
+        for ok_name, k in (('good_arith', 'T4'), ('good_var', 'T4'), ('good_unpack', 'T5'), ('good_pop', 'T7'), ('good_mapget', 'T4'), ('good_modattr', 'T8')):
             if (ok_name, k) in got:
                 problems.append(f'guarded fixture {ok_name} wrongly flagged')
         return problems
